@@ -841,6 +841,10 @@ def rule_variational_transport(ctx, rule='R16.11'):
 
 
 def run(ctx):
+    from . import edges
+    edges.rule_threshold_siblings(ctx, 'R01.13')     # one quantity, one literal, one line: variation of test particle 0
+    edges.rule_time_direction(ctx, 'R08.12')         # time may be negative and may run backwards: MEGNO for backward integrations
+    edges.rule_variational_call_args(ctx, 'R16.12')
     rule_variational_transport(ctx)
     from . import c12 as _c12
     _c12.rule_slices(ctx)                 # R12.1: the acc variant of a transformation (used for the variational kick) is the pos variant's map
